@@ -76,13 +76,13 @@ fn masters_present(doc: &[Node]) -> Vec<u64> {
     v
 }
 
-fn run_pair(ctx: &mut Ctx, input: &[u8], base: &Cfg, flat: &Obs, set: &[u64], origin: &str) {
+fn run_pair<T: crate::spec::SpecT>(ctx: &mut Ctx, input: &[u8], base: &Cfg, flat: &Obs, set: &[u64], origin: &str) {
     let d = || format!("{} input={} buffered=[{}] allow={}", origin, hex(input), set.iter().map(|x| format!("{:x}", x)).collect::<Vec<_>>().join(","), base.allow);
     if !ctx.enter(&d) {
         return;
     }
     let cfg = base.clone().with_buffered(set);
-    let buf = parse_slice::<V>(input, &cfg);
+    let buf = parse_slice::<T>(input, &cfg);
     ctx.transitions += buf.items.len() as u64 + 1;
     let mut fulls = 0;
     let mut nested = false;
@@ -123,10 +123,10 @@ pub fn run(ctx: &mut Ctx) {
     crate::spec::assert_spec_matches::<V>(&rs);
     let quick = ctx.quick();
     let n = ctx.tier.pick(5, 6);
-    ctx.meta("rule", "cases: (input, tolerance, buffered set); inputs = documents of T∘E (known/unknown-size mixes, deep spines) with EVERY subset of the masters present in the document (+ one absent master) as buffered set, every single mutation of the smaller documents, > 64 KiB buffer-boundary documents and every Σ string up to length n with a fixed family of buffered sets; strict and all-tolerant. Oracle: the buffered parse, with each Full replaced by Start/children/End, walked in lock-step against the unbuffered parse of the same bytes: equal items, equal offsets outside buffered masters, Full offset == flat Start offset, clean end iff clean end, error => prefix + error. Non-trivial: pairs emitting a Full with >= 1 child.");
+    ctx.meta("rule", "cases: (input, tolerance, buffered set); inputs = documents of T∘E (known/unknown-size mixes, deep spines) with EVERY subset of the masters present in the document (+ one absent master) as buffered set, every single mutation of the smaller documents, > 64 KiB buffer-boundary documents and every Σ string up to length n with a fixed family of buffered sets; strict and all-tolerant; the same over the second derived specification W (documents x all subsets, mutations of documents <= 3 elements, Σ_W strings), where the global master G may contain a G. Oracle: the buffered parse, with each Full replaced by Start/children/End, walked in lock-step against the unbuffered parse of the same bytes: equal items, equal offsets outside buffered masters, Full offset == flat Start offset, clean end iff clean end, error => prefix + error. Non-trivial: pairs emitting a Full with >= 1 child.");
     ctx.meta("bounds", &format!("documents <= {} elements, all subsets of present masters; Σ* length <= {}", ctx.tier.pick(5, 6), n));
     ctx.meta("assumptions", "end-of-stream closing left at its default (on): with it disabled a buffered master open at the end of input cannot be completed by definition");
-    for c in ["full_items", "nested_full", "error_after_full", "end_queued_before_buffered_master", "unknown_size_buffered", "buffer_boundary_docs"] {
+    for c in ["full_items", "nested_full", "error_after_full", "end_queued_before_buffered_master", "unknown_size_buffered", "buffer_boundary_docs", "w_pairs", "w_master_nested_in_itself"] {
         ctx.expect_nonzero(c);
     }
     let strict = Cfg::strict();
@@ -150,7 +150,7 @@ pub fn run(ctx: &mut Ctx) {
             if has_unknown {
                 ctx.count("unknown_size_buffered", 1);
             }
-            run_pair(ctx, &bytes, &strict, &flat, &set, "doc");
+            run_pair::<V>(ctx, &bytes, &strict, &flat, &set, "doc");
         }
         // mutations of the small documents
         if gen::count_nodes(doc) <= ctx.tier.pick(3, 4) {
@@ -160,9 +160,9 @@ pub fn run(ctx: &mut Ctx) {
                 let flat_t = parse_slice::<V>(mb, &tol);
                 for mask in 1u32..(1u32 << m) {
                     let set: Vec<u64> = (0..m).filter(|i| mask >> i & 1 == 1).map(|i| present[i]).collect();
-                    run_pair(ctx, mb, &mstrict, &flat_m, &set, "mut");
+                    run_pair::<V>(ctx, mb, &mstrict, &flat_m, &set, "mut");
                     if !quick || mask.count_ones() == 1 {
-                        run_pair(ctx, mb, &tol, &flat_t, &set, "mut");
+                        run_pair::<V>(ctx, mb, &tol, &flat_t, &set, "mut");
                     }
                 }
                 !ctx.should_stop()
@@ -178,7 +178,7 @@ pub fn run(ctx: &mut Ctx) {
         let flat = parse_slice::<V>(&bytes, &strict);
         ctx.count("buffer_boundary_docs", 1);
         for set in [vec![ID_M], vec![ID_ROOT], vec![ID_L, ID_N], vec![ID_ROOT, ID_M, ID_N, ID_K, ID_L]] {
-            run_pair(ctx, &bytes, &strict, &flat, &set, "buffer-boundary-doc");
+            run_pair::<V>(ctx, &bytes, &strict, &flat, &set, "buffer-boundary-doc");
         }
     }
     // Σ*
@@ -188,8 +188,62 @@ pub fn run(ctx: &mut Ctx) {
         let flat = parse_slice::<V>(s, &strict);
         let flat_t = parse_slice::<V>(s, &tol);
         for set in &sets {
-            run_pair(ctx, s, &strict, &flat, set, "sigma");
-            run_pair(ctx, s, &tol, &flat_t, set, "sigma");
+            run_pair::<V>(ctx, s, &strict, &flat, set, "sigma");
+            run_pair::<V>(ctx, s, &tol, &flat_t, set, "sigma");
+        }
+        !ctx.should_stop()
+    });
+    // the second derived specification W: masters with placeholder paths, a global master G that may contain itself
+    // once ((0-1)/G), so a buffered master can contain a master with the same id
+    let w = crate::spec::w_refspec();
+    crate::spec::assert_spec_matches::<crate::spec::W>(&w);
+    type W = crate::spec::W;
+    let pw = DocParams { max_nodes: ctx.tier.pick(4, 5), globals: vec![0x96, 0xa7, ID_VOID], exclude: vec![], unknown_subsets: true, devs: 0, payload_classes: false, big_payloads: false, noncanonical: false, width_devs: false, extras: false, all_widths: false };
+    docs::for_each_doc(ctx, &w, &pw, &mut |ctx, doc| {
+        let (bytes, lay) = ref_encode(doc);
+        let present = masters_present(doc);
+        let flat = parse_slice::<W>(&bytes, &strict);
+        let m = present.len().min(6);
+        let mut same_id_nested = false;
+        crate::refmodel::visit(doc, &mut |n, _| {
+            if let crate::refmodel::Kind::Master(ch) = &n.kind {
+                if ch.iter().any(|c| c.id == n.id) {
+                    same_id_nested = true;
+                }
+            }
+        }, 0);
+        for mask in 1u32..(1u32 << m) {
+            let set: Vec<u64> = (0..m).filter(|i| mask >> i & 1 == 1).map(|i| present[i]).collect();
+            ctx.count("w_pairs", 1);
+            if same_id_nested {
+                ctx.count("w_master_nested_in_itself", 1);
+            }
+            run_pair::<W>(ctx, &bytes, &strict, &flat, &set, "W-doc");
+        }
+        if gen::count_nodes(doc) <= 3 {
+            let bounds: Vec<usize> = lay.iter().map(|l| l.tag_start).collect();
+            docs::for_each_mutation(&bytes, &bounds, &crate::c06::SIGMA_W, &[MutKind::Replace, MutKind::Delete, MutKind::Truncate, MutKind::Suffix], &mut |mb, _k, _pos| {
+                let flat_m = parse_slice::<W>(mb, &mstrict);
+                let flat_t = parse_slice::<W>(mb, &tol);
+                for mask in 1u32..(1u32 << m) {
+                    let set: Vec<u64> = (0..m).filter(|i| mask >> i & 1 == 1).map(|i| present[i]).collect();
+                    run_pair::<W>(ctx, mb, &mstrict, &flat_m, &set, "W-mut");
+                    if !quick || mask.count_ones() == 1 {
+                        run_pair::<W>(ctx, mb, &tol, &flat_t, &set, "W-mut");
+                    }
+                }
+                !ctx.should_stop()
+            });
+        }
+        !ctx.should_stop()
+    });
+    let wsets: Vec<Vec<u64>> = vec![vec![0x96], vec![0x94], vec![0x91], vec![0x91, 0x4092, 0x209393, 0x94, 0x95, 0x96]];
+    gen::strings(&crate::c06::SIGMA_W, ctx.tier.pick(4, 5), shard, nshards, &mut |s| {
+        let flat = parse_slice::<W>(s, &strict);
+        let flat_t = parse_slice::<W>(s, &tol);
+        for set in &wsets {
+            run_pair::<W>(ctx, s, &strict, &flat, set, "W-sigma");
+            run_pair::<W>(ctx, s, &tol, &flat_t, set, "W-sigma");
         }
         !ctx.should_stop()
     });
